@@ -1,0 +1,22 @@
+//go:build verif
+
+// Contracts for the verification machinery in /verif (comment-only; no declarations).
+// C12: Connect with the force-direct option never settles for an existing connection without asking the
+// network to dial; an existing limited connection satisfies Connect only when limited connections are allowed.
+
+package basichost
+
+//@ func (h *BasicHost) Connect
+//@ prop C12
+//@ ensures nth(network.GetForceDirectDial(ctx), 0) ==> called(dialPeer, 0) && arg(dialPeer, 0, 2) == pi.ID
+//@ ensures result == nil && !called(dialPeer, 0) ==> !nth(network.GetForceDirectDial(ctx), 0) && called(Connectedness, 0) && arg(Connectedness, 0, 1) == pi.ID &&
+//@         (ret(Connectedness, 0, 0) == network.Connected || (nth(network.GetAllowLimitedConn(ctx), 0) && ret(Connectedness, 0, 0) == network.Limited))
+//@ ensures called(dialPeer, 0) ==> result == ret(dialPeer, 0, 0) && arg(dialPeer, 0, 1) == ctx
+//@ noinline dialPeer
+//@ noframe
+
+//@ func (h *BasicHost) dialPeer
+//@ prop C12
+//@ ensures called(DialPeer, 0) && arg(DialPeer, 0, 1) == ctx && arg(DialPeer, 0, 2) == p
+//@ ensures result == nil ==> ret(DialPeer, 0, 1) == nil
+//@ noframe
